@@ -134,29 +134,68 @@ def kclass(k):
 
 # ---------------------------------------------------------------------------- points
 
-def small_order_points(g, rng):
-    """Points of every prime order dividing the cofactor, constructed as [N/l]P."""
+_SO_CACHE = {}
+
+
+def _small_order_base(g):
+    """One point of every prime order dividing the cofactor, [N/l]P for a fixed seeded P; cached on disk
+    (pure function of the model, so the cache can never change a verdict)."""
+    if g in _SO_CACHE:
+        return _SO_CACHE[g]
+    import json, os
+    path = "/verif/.build/cache/small_order_g%d.json" % g
     c, h, n = (E1, H1, N1) if g == 1 else (E2, H2, N2)
     primes = sorted(set(H1_FACTORS if g == 1 else H2_FACTORS))
+    out = None
+    if os.path.exists(path):
+        try:
+            raw = json.load(open(path))
+            out = {int(l): (tuple(P[0]), tuple(P[1])) if g == 2 else (P[0], P[1]) for l, P in raw.items()}
+            if sorted(out) != primes or not all(c.on_curve(P) for P in out.values()):
+                out = None
+        except Exception:
+            out = None
+    if out is None:
+        rng = random.Random("small-order-%d" % g)
+        out = {}
+        for l in primes:
+            e = 0
+            while n % (l ** (e + 1)) == 0:
+                e += 1
+            while l not in out:
+                # project into the l-Sylow subgroup, then climb down to an element of order exactly l
+                P = c.mul(n // (l ** e), c.random_point(rng))
+                while P is not None:
+                    nxt = c.mul(l, P)
+                    if nxt is None:
+                        out[l] = P
+                        break
+                    P = nxt
+        os.makedirs(os.path.dirname(path), exist_ok=True)
+        tmp = path + ".%d.tmp" % os.getpid()
+        json.dump({str(l): P for l, P in out.items()}, open(tmp, "w"))
+        os.replace(tmp, path)
+    _SO_CACHE[g] = out
+    return out
+
+
+def small_order_points(g, rng, include_big=False):
+    """Points of every prime order l dividing the cofactor: [k][N/l]P with a fresh random k per call."""
+    c = E1 if g == 1 else E2
     out = {}
-    for l in primes:
-        for _ in range(64):
-            P = c.mul(n // l, c.random_point(rng))
-            if P is not None:
-                assert c.mul(l, P) is None
-                out[l] = P
-                break
+    for l, P in _small_order_base(g).items():
+        if l >= (1 << 64) and not include_big:
+            continue
+        k = rng.randrange(1, min(l, 1 << 20))
+        out[l] = c.mul(k, P)
+        assert out[l] is not None
     return out
 
 
 def order_rl_point(g, rng, l):
-    """A point of order r*l."""
-    c, h, n = (E1, H1, N1) if g == 1 else (E2, H2, N2)
-    for _ in range(64):
-        P = c.mul(n // (R * l), c.random_point(rng))
-        if P is not None and c.mul(R, P) is not None and c.mul(l, P) is not None:
-            return P
-    raise AssertionError
+    """A point of order r*l: subgroup point + point of order l."""
+    c = E1 if g == 1 else E2
+    return c.add(subgroup_point(g, rng), small_order_points(g, rng)[l])
 
 
 def subgroup_point(g, rng):
